@@ -3,7 +3,7 @@
     answers) and the witnesses stay in place (scan files are never written - C03; a torrent's own
     export files only ever receive correct bytes - C01). *)
 From TB Require Import Base Decimal BencodeModel TorrentModel TorrentProofs PathModel FsModel SolverModel FinderModel RunModel
-                       SolverProofs RunProofs FsProofs FaultProofs PreludeProofs TableProofs FinderProofs SearchProofs PresentProofs Generated GeneratedObligations SystemModel SystemProofs GlueProofs EstablishProofs CompleteProofs RunExample RerunProofs.
+                       SolverProofs RunProofs FsProofs FaultProofs PreludeProofs TableProofs FinderProofs SearchProofs PresentProofs Generated GeneratedObligations SystemModel SystemProofs GlueProofs EstablishProofs CompleteProofs RunExample RerunProofs AvailProofs.
 From Coq Require Import Permutation Sorted.
 Local Open Scope N_scope.
 
@@ -91,6 +91,30 @@ Proof. exact (stable_SI content es pc wit f0 f). Qed.
 Example C02_stably_available_somewhere : avail_stable ex_content ex_es ex_pc ex_wit ex_f0.
 Proof. exact ex_stable. Qed.
 
+(** C02 AS STATED.  [ix_of_fs]: the index holds exactly what gets registered in the start state (files
+    under a scan directory whose length is a declared length; export locations of table entries that
+    are regular files of exactly the declared length) - the set the trace validator compares with the
+    index the implementation built.  [seg_present_stable]: each non-padding segment has nothing in the
+    way of its export path and, if it has bytes, is present at its torrent offset in some regular
+    file of exactly the declared file length, under a scan directory or at the export location of a
+    table entry, which the run cannot damage ([src_stable]).  Then, in a fault-free run, the piece's
+    evaluation returns [Success] and every segment is in place - whatever the hash map's order,
+    whichever hard link the pruning kept, whatever other candidates exist, whatever the interleaving. *)
+Theorem C02_present_means_recovered H content es0 ix es dev under pc s s' i o :
+  table_functional content es -> wf_piece content pc -> Forall (fun sg => In (ps_entry sg) es) (w_segs pc) ->
+  cr H content pc -> H (piece_bytes content pc) = w_hash pc -> Forall (pad_zero content) (w_segs pc) ->
+  w_segs pc <> [] -> (forall sg, w_segs pc = [sg] -> ps_len sg <> 0) ->
+  populate ix es0 = Ok es -> ix_of_fs (s_fs s) dev under es0 ix ->
+  Forall (seg_present_stable content (s_fs s) under es0 es) (w_segs pc) ->
+  alias_free content es (s_fs s) -> Forall (pgood content es) (s_pool s) ->
+  nth_error (s_pool s) i = Some (solve_prog H pc) -> freach s s' -> nth_error (s_pool s') i = Some (Ret o) ->
+  o = Success /\ forall sg, In sg (w_segs pc) -> e_pad (ps_entry sg) = false -> holds_seg content (s_fs s') sg.
+Proof. exact (present_means_recovered H content es0 ix es dev under pc s s' i o). Qed.
+
+Example C02_present_somewhere : ix_of_fs ex_f0 0 ex_under ex_es0 ex_ix /\
+  Forall (seg_present_stable ex_content ex_f0 ex_under ex_es0 ex_es) (w_segs ex_pc).
+Proof. exact (conj ex_ix_of_fs ex_present). Qed.
+
 Print Assumptions C02_candidates_complete.
 Print Assumptions C02_candidates_sound.
 Print Assumptions C02_witnesses_give_combination.
@@ -100,3 +124,4 @@ Print Assumptions C02_rejection_only_without_candidates.
 Print Assumptions C02_available_means_recovered.
 Print Assumptions C02_stably_available_means_recovered.
 Print Assumptions C02_stable_availability_is_invariant.
+Print Assumptions C02_present_means_recovered.
